@@ -60,7 +60,7 @@ RESERVED = [K("k3::S-Repeat-reserved"), K("k3::S-Define-reserved"), K("k3::S-Def
             K("k3::S-Repeat-tuple-reserved"), K("k3::S-Define-global-reserved"),
             K("k3::S-Define-global-tuple-reserved")]
 S_TALES = [K("k3::S-Pipe3"), K("k3::S-Pipe-prefix-middle"), K("k3::S-Same-not-twice"), K("k3::S-Same-exists-twice"), K("k3::S-Same-string-twice"), K("k3::S-Not"), K("k3::S-Exists"), K("k3::S-LambdaScope")]
-S_INTERP = [K("k3::S-Interp-braces"), K("k3::S-PI-interp"), K("k3::S-Cdata-entity"), K("k3::S-Cdata-twice"), K("k3::S-Interp-text"), K("k3::S-Interp-off"), K("k3::S-Interp-lines"),
+S_INTERP = [K("tales.py::PythonExpr.translate"), K("k3::S-Interp-braces"), K("k3::S-PI-interp"), K("k3::S-Cdata-entity"), K("k3::S-Cdata-twice"), K("k3::S-Interp-text"), K("k3::S-Interp-off"), K("k3::S-Interp-lines"),
             K("k3::S-Interp-percent"), K("k3::S-Cdata-then-text")]
 S_I18N = [K("k3::S-Translate-name"), K("k3::S-Translate-name-condition"), K("k3::S-Translate-id"), K("k3::S-Translate-empty"),
           K("k3::S-I18nDomain"), K("k3::S-I18nContext"), K("k3::S-I18nTarget"), K("k3::S-I18nTarget-name"), K("k3::S-I18nContext-name"), K("k3::S-I18nContext-target-domain"), K("k3::S-I18nAttributes"), K("k3::S-I18nAttributes-two"), K("k3::S-I18nAttributes-implicit-interp"),
@@ -316,7 +316,7 @@ PROPS = {
         "included) with each ${expr} replaced by the unescaped string form and $$ by $, also when the "
         "text starts with markup characters.",
         [K("k3::S-TextMode"), K("k3::S-TextMode-lt"), K("k3::S-TextMode-endtag"), K("k3::S-Interp-percent"),
-         K("k3::S-Interp-braces"), K("zpt/template.py::PageTextTemplateFile.render"),
+         K("k3::S-Interp-braces"), K("tales.py::PythonExpr.translate"), K("zpt/template.py::PageTextTemplateFile.render"),
          K("zpt/template.py::PageTemplate.parse"), K("k3::S-TextMode-colliding-names"),
          K("zpt/loader.py::TemplateLoader.load"), K("loader.py::cache.load"),
          U('bounded.units', 'interp', 'B-INTERP')],
